@@ -15,7 +15,7 @@ TITLE = 'df_slice keeps exactly the rows in the interval; stitching switches at 
 STATEMENT = ('df_slice(ts, lb, ub, openclose) = the rows with lb </<= t and t </<= ub per the two brackets (time-of-day bounds compare '
              'the time of day, start > end wraps); stitching takes (ub[i-1], ub[i]] from series i (column j from series i+j), each '
              'timestamp once; df_unslice then stitching again reproduces the frame')
-LEAN_FILES = ['Basic', 'TSBasic', 'Slice', 'SliceDriver', 'DfSliceLemmas', 'DfSliceNaLemmas', 'DfSliceBcastLemmas', 'BitempLemmas', 'C13']
+LEAN_FILES = ['Basic', 'TSBasic', 'Slice', 'SliceDriver', 'DfSliceLemmas', 'DfSliceNaLemmas', 'DfSliceBcastLemmas', 'DfSliceFrameLemmas', 'BitempLemmas', 'C13']
 RULE = ('distinct protocol lines (a single slice, a stitching call or an unslice round trip) on which the implementation returned '
         'a non-empty series / frame')
 TRUSTED = ['correspondence harness (pv.engine, pv.proto) and generators of pv.props.c13',
